@@ -107,6 +107,20 @@ def rule_legacy_attr_parser(ctx):
             if mm:
                 for p in _pat_alternatives(arm["pat"]):
                     slots.setdefault(mm.group(1), []).append((p, mm.group(2), guarded))
+            else:
+                # an arm for a *flag* parameter that records nothing: `not(x)` is not 'the default anyway' - it is what
+                # overrides an inherited `x` (struct-level `forward`, a field named `source`)
+                for p in _pat_alternatives(arm["pat"]):
+                    mp_ = re.fullmatch(r'\((None|Some\("not"\)),"(\w+)"\)', p)
+                    if mp_ and mp_.group(2) != "types":
+                        ctx.instance(f"nested:arm-writes:{p}")
+                        ctx.report(
+                            f"legacy:arm-no-write:{p}",
+                            ctx.where(f, arm["pat"]),
+                            f"the arm {p} of the legacy attribute parser does not store the flag (`{b[:80]}`): the parameter is accepted and then forgotten - a field-level `not(forward)` no longer overrides a container-level "
+                            "`forward` (Deref's `Target` becomes the inner type's), `not(source)` no longer removes the field named `source` from the candidates",
+                            {},
+                        )
     # the recursion hands the *name of the list it just matched* down as the wrapper: that is what makes `not(source)` mean
     # (Some("not"), "source") and `ref(T)` record T under the `ref` kind only
     recs = [(c, cps_) for c, cps_ in A.find(pn.block, "Expr::Call") if A.path_str(c["func"]) == pn.name]
@@ -192,6 +206,36 @@ def rule_legacy_attr_parser(ctx):
                 + " parameter in one attribute is accepted and the last one wins instead of being a compile error",
                 {},
             )
+
+
+def rule_attr_validation_reach(ctx):
+    """ATTR-REACH: the legacy attribute validator `get_meta_info` (the only place where unknown, duplicated and contradicting parameters of 16 derives are refused) is reached for the item, for every variant and for every field *unconditionally* - its reach condition contains nothing but the iteration itself. Skipping it for items that 'do not take part anyway' (fields of an `ignore`d variant) makes a mistyped or duplicated attribute there compile silently."""
+    from . import reject as RJ
+    from .. import guardf as GF
+
+    n = 0
+    for rel, f in sorted(ctx.files.items()):
+        if not rel.startswith("impl/src/"):
+            continue
+        for fn in A.functions(f):
+            if fn.block is None or fn.name == "get_meta_info":
+                continue
+            for c, ps in A.find(fn.block, "Expr::Call"):
+                if A.kind(c["func"]) != "Expr::Path" or A.path_str(c["func"]).split("::")[-1] != "get_meta_info":
+                    continue
+                n += 1
+                cond = GF.canon_text(RJ.site_formula(fn, c, ps))
+                ctx.instance(f"attr-reach:{rel}::{fn.qual}#{n}", sample={"site": f"{rel}::{fn.qual}", "reach condition": cond})
+                if cond == "true" or (re.fullmatch(r"\$(\.\w+)*\.iter\(\)(\.map\(\|\$\|&?\$\.attrs\))? ~ Some", cond)):
+                    continue
+                ctx.report(
+                    f"attr-reach:{rel}::{fn.qual}",
+                    ctx.where(f, c),
+                    f"`{fn.qual}` validates attributes with `get_meta_info` only under `{cond}`: on the other paths unknown, duplicated or contradicting parameters are never looked at - "
+                    "`#[error(ignore)] A { #[error(sauce)] source: E }` compiles instead of being rejected",
+                    {},
+                )
+    ctx.floor("get_meta_info call sites", n, 3)
 
 
 def _merge_overrides(ctx):
